@@ -291,19 +291,16 @@ def normalise_conditional_assignments(tree):
 
 def normalise_negated_tests(tree):
     """``if not c: A else: B`` -> ``if c: B else: A`` and ``A if not c else B``
-    -> ``B if c else A``: which arm is written first carries no meaning.
-    (elif chains are left alone: their order is the dispatch order.)"""
+    -> ``B if c else A``: which arm is written first carries no meaning (an
+    ``elif`` is just an ``if`` nested in the else arm)."""
     n = 0
     for node in ast.walk(tree):
-        if isinstance(node, ast.If) and node.orelse and \
-                isinstance(node.test, ast.UnaryOp) and isinstance(node.test.op, ast.Not) and \
-                not (len(node.orelse) == 1 and isinstance(node.orelse[0], ast.If)) and \
-                not (len(node.body) == 1 and isinstance(node.body[0], ast.If) and
-                     False):
+        while isinstance(node, ast.If) and node.orelse and \
+                isinstance(node.test, ast.UnaryOp) and isinstance(node.test.op, ast.Not):
             node.test = node.test.operand
             node.body, node.orelse = node.orelse, node.body
             n += 1
-        elif isinstance(node, ast.IfExp) and isinstance(node.test, ast.UnaryOp) and \
+        while isinstance(node, ast.IfExp) and isinstance(node.test, ast.UnaryOp) and \
                 isinstance(node.test.op, ast.Not):
             node.test = node.test.operand
             node.body, node.orelse = node.orelse, node.body
